@@ -127,7 +127,6 @@ class _Model:
         self._seen = set()
         self.nt = False
         self.order_cells = []
-        self.steps = 0
 
     def lab(self, x):
         if x not in self._seen:
@@ -188,7 +187,6 @@ class _Model:
 
     # -- effects
     def apply(self, op):
-        self.steps += 1
         op = self.resolve(op)
         if op is None:
             self.lab('skipped-op(empty pool)')
@@ -448,7 +446,7 @@ class _World:
 
     @staticmethod
     def _dag(c):
-        """hashes of the distinct cells reachable from c, and the number of root-to-cell paths (capped)"""
+        """{hash: cell} of the distinct cells reachable from c (own traversal over .refs)"""
         seen = {c.hash: c}
         stack = [c]
         while stack:
@@ -519,7 +517,8 @@ class _World:
             return 'after-builder-store(unrelated-cell)'
         return 'after-' + _opname(op)
 
-    def _ochannel(self, op, kind, oi):
+    @staticmethod
+    def _ochannel(op):
         k = op['op']
         if k == 'load':
             return 'after-slice-load'
@@ -544,7 +543,7 @@ class _World:
                 if touched == ('s', si):
                     e['state'] = st_
                     continue
-                return Fail(f'derived-changed/slice/{self._ochannel(op, "slice", si)}',
+                return Fail(f'derived-changed/slice/{self._ochannel(op)}',
                             f'{self._at()} {_clip(op, 160)}: slice #{si} was not operated on: '
                             f'{len(e["state"][0])} bits/{len(e["state"][1])} refs -> {len(st_[0])}/{len(st_[1])}')
         for bi, e in enumerate(self.builders):
@@ -553,7 +552,7 @@ class _World:
                 if touched == ('b', bi):
                     e['state'] = st_
                     continue
-                return Fail(f'derived-changed/builder/{self._ochannel(op, "builder", bi)}',
+                return Fail(f'derived-changed/builder/{self._ochannel(op)}',
                             f'{self._at()} {_clip(op, 160)}: builder #{bi} was not operated on: '
                             f'{len(e["state"][0])} bits/{len(e["state"][1])} refs -> {len(st_[0])}/{len(st_[1])}')
         for ci, e in enumerate(self.cells):
@@ -1449,7 +1448,7 @@ _GRID_STORES = [{'m': 'bits', 'v': '1011'}, {'m': 'uint', 'v': 5, 'n': 7}, {'m':
                 {'m': 'snake', 'v': 'ab' * 140}]
 
 
-def _grid_prog(route, chain, target_kind):
+def _grid_prog(route, chain):
     """(ops, model) up to and including the derivation chain; parent cell = #2 (bits non-aligned, refs [#0, #1])"""
     if any(step == 'obs_dict' for step, _ in chain):      # a well-formed 8-bit-key dictionary: fork over two leaves
         leaf0, leaf1, parent_bits = _hm_label(7, 5) + '1011', _hm_label(7, 77) + _bits([13, 2, 7]), '00'
@@ -1489,14 +1488,14 @@ def enum_grid(tier):
             {'op': 'hashmap', 'kl': 8, 'items': [[1, {'t': 'cell', 'i': 0}], [200, {'t': 'slice', 'i': 0}]], 'via': 'map_'}]
     for route in ('builder', 'tvm', 'plain'):
         for name, chain in _GRID_SLICE_CHAINS.items():
-            ops, m = _grid_prog(route, chain, 's')
+            ops, m = _grid_prog(route, chain)
             if ops is None:
                 continue
             si = len(m.s) - 1
             for meth, n in _GRID_LOADS:
                 yield {'ops': ops + [{'op': 'load', 's': si, 'm': meth, 'n': n}, {'op': 'load', 's': si, 'm': 'ref'}] + tail}
         for name, chain in _GRID_BUILDER_CHAINS.items():
-            ops, m = _grid_prog(route, chain, 'b')
+            ops, m = _grid_prog(route, chain)
             if ops is None:
                 continue
             if name.startswith('source-builder'):
@@ -1517,7 +1516,7 @@ SUBCHECKS = [
     Sub('derive-mutate-grid', check_program, enum=enum_grid, classify=classify, nontrivial=nontrivial, shards=(8, 8),
         exhaustive=True, note='construction route x derivation chain x every load / store method, then observations'),
     Sub('programs-random', check_program, strategy=strat_programs, classify=classify, nontrivial=nontrivial,
-        n=(4000, 60000), shards=(16, 48)),
+        n=(8000, 100000), shards=(16, 48)),
     Sub('history-independence', check_history, strategy=strat_history, classify=classify_history,
-        nontrivial=nontrivial_history, n=(1600, 24000), shards=(16, 32)),
+        nontrivial=nontrivial_history, n=(3000, 30000), shards=(16, 32)),
 ]
